@@ -487,6 +487,57 @@ func c20Concurrent(seed int64, tier string) ([]string, map[string]any) {
 		if len(fail) > 0 {
 			break
 		}
+		// a document none of the readers (nor anybody else in this process) has looked at before, with a list longer than
+		// any seen so far: the FIRST reads happen concurrently, and every reader sees every position under its own path
+		if round < 24 {
+			n := 33 + round*11 + int(seed%7)
+			big := make([]any, n)
+			nested := make([]any, n+3)
+			for i := range big {
+				big[i] = i
+			}
+			for i := range nested {
+				nested[i] = fmt.Sprintf("s%d", i)
+			}
+			bd := dom.Builder().FromMap(map[string]any{"big": big, "x": map[string]any{"inner": []any{nested}}}).Seal()
+			var wg2 sync.WaitGroup
+			for g := 0; g < 12; g++ {
+				wg2.Add(1)
+				go func(g int) {
+					defer wg2.Done()
+					pn := guard(func() {
+						fl := bd.Flatten()
+						bad := len(fl) != 2*n+3
+						for i := 0; i < n && !bad; i++ {
+							l, ok := fl[fmt.Sprintf("big[%d]", i)]
+							bad = !ok || l.Value() != i
+						}
+						for i := 0; i < n+3 && !bad; i++ {
+							l, ok := fl[fmt.Sprintf("x.inner[0][%d]", i)]
+							bad = !ok || l.Value() != fmt.Sprintf("s%d", i)
+						}
+						if hits := bd.Search(dom.SearchEqual(n - 1)); len(hits) != 1 || hits[0] != fmt.Sprintf("big[%d]", n-1) {
+							bad = true
+						}
+						if bad {
+							mu.Lock()
+							fail = append(fail, fmt.Sprintf("goroutine %d: first concurrent Flatten/Search of a fresh document with lists of %d and %d items does not list every position under its own path", g, n, n+3))
+							mu.Unlock()
+						}
+					})
+					if pn != "" {
+						mu.Lock()
+						fail = append(fail, "panic in a concurrent first read of a fresh document: "+pn)
+						mu.Unlock()
+					}
+				}(g)
+			}
+			wg2.Wait()
+			total += 24
+			if len(fail) > 0 {
+				break
+			}
+		}
 	}
 	return fail, map[string]any{"concurrent_rounds": rounds, "goroutines": 16, "concurrent_reads": total}
 }
@@ -494,7 +545,7 @@ func c20Concurrent(seed int64, tier string) ([]string, map[string]any) {
 func init() {
 	register(&Prop{
 		ID:   "C20",
-		Rule: "documents with empty containers and empty lists at any depth along 7 construction routes (builder, FromMap, loaded from YAML, merged, cloned, sealed, empty sealed) x one read-only call (Child, Children, Lookup, Flatten, Search, AsMap, Equals, SameAs, Clone; then Serialize and list accessors, then writes into the plain value AsMap() returned, then 8 random edits of a Clone()): the generic representation dump (hook dom.VerifDump: every field, nil-ness/len/cap of maps and slices) must be identical before and after, and the returned value equal to the content-only model; overlay-read: Lookup (incl. unknown layer), LookupAny, Search, Merged (both strategies), Layers, LayerNames, Walk, Serialize, and random edits of Layers() snapshots and their clones leave the overlay's dump unchanged (layers derived from each other, so they share structure at every depth, plus a fixed three-level overlap with lists in lists). Extra: 16 goroutines x random read sequences on one shared document + overlay views, observations equal to single-threaded ones; the same harness is built with -race and must produce no race report. Non-trivial: document has an unallocated (nil) map or slice. Distinct by Gallina term. The slices returned by Items()/AsSlice() of every list and of its sealed view are overwritten and appended to by two readers. The merged view of an overlay (also of one layer) and the result of {}.Merge(d) are finished by their reader at the top level (add, remove, overwrite scalars). Snapshots edited below their root; LookupAny asked repeatedly.",
+		Rule: "documents with empty containers and empty lists at any depth along 7 construction routes (builder, FromMap, loaded from YAML, merged, cloned, sealed, empty sealed) x one read-only call (Child, Children, Lookup, Flatten, Search, AsMap, Equals, SameAs, Clone; then Serialize and list accessors, then writes into the plain value AsMap() returned, then 8 random edits of a Clone()): the generic representation dump (hook dom.VerifDump: every field, nil-ness/len/cap of maps and slices) must be identical before and after, and the returned value equal to the content-only model; overlay-read: Lookup (incl. unknown layer), LookupAny, Search, Merged (both strategies), Layers, LayerNames, Walk, Serialize, and random edits of Layers() snapshots and their clones leave the overlay's dump unchanged (layers derived from each other, so they share structure at every depth, plus a fixed three-level overlap with lists in lists). Extra: 16 goroutines x random read sequences on one shared document + overlay views, observations equal to single-threaded ones; the same harness is built with -race and must produce no race report; per round a FRESH document with lists longer than any seen before (33 … 300 items) whose first Flatten/Search happen concurrently in 12 goroutines. Non-trivial: document has an unallocated (nil) map or slice. Distinct by Gallina term. The slices returned by Items()/AsSlice() of every list and of its sealed view are overwritten and appended to by two readers. The merged view of an overlay (also of one layer) and the result of {}.Merge(d) are finished by their reader at the top level (add, remove, overwrite scalars). Snapshots edited below their root; LookupAny asked repeatedly.",
 		Gen: func(r *rand.Rand, tier string, idx int) Case {
 			if idx%5 == 4 {
 				return c20Overlay(r)
